@@ -24,7 +24,8 @@ PROPS["C16"] = dict(
     level_text="Theorems over every configured size and every delivery history of any length: at most once, accept rule, window bounds, refinement of the set-based window (bit-faithful model of "
                "replayWindow.check); connection level: only the genuine record that arrived is delivered, each payload at most once, whatever is not genuine is inert (removing it changes neither "
                "the window nor anything delivered), first arrivals inside the window are delivered.  The window model is evaluated in Coq on decision sequences of the Go window; the connection "
-               "model on what the application of a real connection (both cipher modes, window sizes 0/32/48/64/100/160, Read and ReadFrom) got after every arrival of a scripted history.",
+               "model on what the application of a real connection (both cipher modes, window sizes 0/32/48/64/100/160, Read and ReadFrom) got after every arrival of a scripted history."
+               " Also: forged current-epoch records with bodies of 0..15 bytes, the window size set per client by GetConfigForClient, the rest of a record across ReadFrom calls.",
     level_note="Trusted: Coq kernel + vm_compute; hand-written models tied by correspondence; that a datagram which is not byte-identical to a genuine record fails authentication (INT-CTXT of SM4-GCM / "
                "HMAC-SM3+CBC) is the assumption behind the `Bogus` item of the connection model; the harness classifies what it delivers (genuine copy / anything else). F7 and F14 fixed.",
     code_names={1: "sequence-number-accepted-twice", 2: "in-window-first-arrival-refused", 3: "delivered-something-that-is-not-the-genuine-record-that-arrived",
@@ -38,7 +39,8 @@ PROPS["C17"] = dict(
     technique="Coq proofs on a byte-faithful model of fragmentBuffer (bitmask as bytes), the readHandshake fragment path and the sender split: coverage invariant, any-order reassembly, tiling; vm_compute correspondence at buffer, receiver, sender and handshake level",
     level_text="Theorems for every fragment set / order / overlap / duplication and every payload limit (complete iff covered, assembled = message, "
                "transcript form, overflow rejected, bounded pending state) proved in Coq; the model and an independent reference reassembler are "
-               "evaluated in Coq on what the Go buffer, readHandshake, writeHandshakeRecord did; full handshakes are run with independent PMTU values.",
+               "evaluated in Coq on what the Go buffer, readHandshake, writeHandshakeRecord did; full handshakes are run with independent PMTU values."
+               " Also: the rest of a message arriving after a wall-clock gap (the library ages incomplete buffers by the wall clock).",
     level_note="Trusted: Coq kernel + vm_compute; hand-written model tied by correspondence; time-based stale-buffer cleanup and the record layer "
                "beneath readHandshake are not in this model (C15/C09 cover the record layer).",
     code_names={1: "complete-disagrees-with-coverage", 2: "assembled-differs-from-message", 3: "fragment-range-check-wrong",
@@ -53,7 +55,8 @@ PROPS["C20"] = dict(
     level_text="Theorems for every transport segmentation and every sequence of read-buffer sizes (routing by byte 1, transparency = nothing lost/duplicated/"
                "reordered, short stream is an error, progress) proved in Coq; the model and a stream-level predicate are evaluated in Coq on what "
                "pa.NewListener / ProtocolDetectConn did for all 256 version bytes, segmentations, early disconnects and configurations (first Read with a non-empty or an empty buffer); real TLCP and TLS "
-               "handshakes are run through the adapter and directly, also forced by a zero-length Read.",
+               "handshakes are run through the adapter and directly, also forced by a zero-length Read."
+               " Also: a zero-length or concurrent first Read / Write, a server that writes first, the caller's deadline expiring inside the first bytes (finding F33, fixed), Close while the first Read is pending, first records of other content types, a TLS configuration by callback.",
     level_note="Trusted: Coq kernel + vm_compute; hand-written model tied by correspondence; crypto/tls and tlcp.Server behind the adapter are exercised, not modelled; "
                "the mutex in ProtocolSwitchServerConn belongs to C13.",
     code_names={1: "short-stream-not-an-error", 2: "error-on-complete-header", 3: "bytes-lost-or-altered", 4: "unexpected-read-error",
@@ -81,7 +84,8 @@ PROPS["C15"] = dict(
     technique="Coq proofs (linear arithmetic with div/mod, induction over the splitting loop) on a Z model of maxPayloadSizeForWrite / record length / writeRecordLocked splitting; vm_compute correspondence on established DTLCP connections over the virtual-time network",
     level_text="Theorems for every PMTU, suite and payload size (one datagram within the maximum payload, every datagram within the path MTU, at most 16384 plaintext "
                "bytes, split in order) proved in Coq; the exact list of datagram sizes and of received pieces of every Write/WriteTo is compared with the model, and "
-               "an MTU/boundary predicate independent of max_payload is evaluated on them and on the datagram sizes of every handshake.",
+               "an MTU/boundary predicate independent of max_payload is evaluated on them and on the datagram sizes of every handshake."
+               " Also: configurations used through Clone, ends with different path MTUs, the server's flight sent again after a lost client flight, reads shorter than a record and a short Read followed by ReadFrom.",
     level_note="Trusted: Coq kernel + vm_compute; hand-written model tied by correspondence. K5 (empty WriteTo "
                "sent nothing), K3 (a buffered handshake flight left as one datagram) and F9 are fixed: an empty payload is one empty record (one datagram, one ReadFrom of length 0; Read skips it); "
                "flights are packed at record boundaries (theorem C15_flight_fits); the packing itself is compared with the code only through the size of every handshake datagram.",
@@ -125,7 +129,8 @@ PROPS["C07"] = dict(
     technique="Coq theorems over the server's client-authentication decision function against a declarative policy table + correspondence: a puppet client plays every behaviour under the six policies, full and resumed across configurations sharing a cache",
     level_text="Theorems (completion implies the policy table, both certificates for ECDHE, CertificateVerify valid whenever a certificate was sent; reported peer certificates imply "
                "the proof of possession, reported verified chains imply verification; a session is resumed only under a policy it satisfies) proved in Coq; 6 policies x behaviours x "
-               "ECC/ECDHE x full/resumed x both stacks are played against the real server and compared with the model on independently computed oracle answers.",
+               "ECC/ECDHE x full/resumed x both stacks are played against the real server and compared with the model on independently computed oracle answers."
+               " Also: the server's own trust settings (another CA, only RootCAs configured), its clock after the chain's validity, a client that leaves out the Certificate message, ECDHE sessions with a deviant encryption certificate under every second policy.",
     level_note="Trusted: Coq kernel + vm_compute; X.509 verification and SM2 verification are oracles computed by the harness; the puppet peer.",
     code_names={1: "completed-although-policy-not-satisfied", 2: "certificate-accepted-without-proof-of-possession", 3: "peer-certificates-reported-without-proof",
                 4: "verified-chains-reported-without-verification", 5: "completed-with-wrong-Finished", 6: "resumed-under-a-policy-the-session-does-not-satisfy", 7: "ecdhe-encryption-certificate-not-verified",
@@ -154,7 +159,8 @@ PROPS["C10"] = dict(
     level_text="Theorems over every history (resume iff offered-held-enabled-policy, transparent fallback, failed session not re-offered, fresh identifiers, same identity, forged identifiers "
                "never resumed) proved in Coq by an invariant over event sequences; random histories (one client, three servers, cache loss, reconfiguration, forged identifiers, induced "
                "failures, capacities down to 1) are run with real connections and the model must predict for every connection the identifier offered, both resumption flags, both "
-               "results and the new session.",
+               "results and the new session."
+               " Also: forged identifiers of every legal length, and the peer identity both ends report on resumed connections.",
     level_note="Trusted: Coq kernel + vm_compute; session identifiers are numbered by order of creation (the 32 random bytes themselves are not modelled: freshness is relative to the RNG); "
                "fresh keys on resumption follow from fresh randoms under the cached master secret (C04 checks the derivation).",
     code_names={1: "ends-disagree-on-resumption-or-success", 2: "resumed-without-an-offered-session", 3: "failed-session-offered-again", 4: "session-identifier-reused",
@@ -169,7 +175,8 @@ PROPS["C08"] = dict(
                "consecutive warning alerts (client and server, ECC/ECDHE, full/resumed; datagram stack: with cookie rounds, tolerated retransmitted ClientHellos and silently dropped records); "
                "completion implies the received prefix is item for item a legal flow; no application data before completion; errors are final.  Legal flows, every single omission, "
                "duplication, transposition, insertion, invalid-content variant, the 16/17 warning boundary and a pruned enumeration from the initial state are played by the puppet peer "
-               "against the real endpoints of both stacks and compared with the automaton and with the language.",
+               "against the real endpoints of both stacks and compared with the automaton and with the language."
+               " Also: several handshake messages packed into one record (legal, and the post-ChangeCipherSpec message packed before it), ECDHE servers with default ClientAuth, and on the datagram stack a peer that itself follows the deviant order with a real ChangeCipherSpec (judged on completion only).",
     level_note="Trusted: Coq kernel + vm_compute; the event abstraction (one record = one event; `ok` = the contents pass the receiver's checks, which C02/C07 analyse); the puppet peer. "
                "Datagram stack: the language is the standard's flows modulo the records a datagram endpoint must drop to survive loss and reordering (C19): records of another epoch / replayed, "
                "a ChangeCipherSpec it cannot use yet, handshake records while the ChangeCipherSpec is awaited, retransmitted ClientHellos; theorem dclient/dserver_refines_stream ties every completion "
@@ -185,7 +192,8 @@ PROPS["C05"] = dict(
     level_text="Theorems for every byte stream an attacker can deliver (delivered = payloads of the intact in-order genuine prefix; nothing of a damaged / replayed / reordered / truncated / "
                "injected record; error latched; single CBC alert) proved in Coq; flips at header and body positions, drop, duplicate, swap, truncation at and inside boundaries, injected "
                "records of every content type, genuine non-application records and the 16/17 ignored-record boundary are run against real TLCP endpoints in both modes and directions, "
-               "and the model must predict delivered bytes, the ending (EOF / unexpected EOF / which alert) and the latched second read.",
+               "and the model must predict delivered bytes, the ending (EOF / unexpected EOF / which alert) and the latched second read."
+               " Also: injected records of every length below a nonce / a MAC and of every content type, and a receiver that has half-closed before the attacked stream arrives.",
     level_note="Trusted: Coq kernel + vm_compute; INT-CTXT idealisation of SM4-GCM and HMAC-SM3-then-CBC with the sequence number authenticated (C04 checks the construction); the puppet peer.",
     code_names={1: "delivered-bytes-outside-intact-prefix", 2: "error-not-latched", 3: "intact-prefix-not-fully-delivered", 4: "cbc-damage-answered-by-other-alert", "hang": "hang"},
     assumptions=["authenticated decryption rejects every record that is not byte-identical to the one sealed with the expected sequence number"],
@@ -199,7 +207,8 @@ PROPS["C04"] = dict(
                "sequence numbers, Go's extractPadding bit arithmetic equals 'last p+1 bytes equal p') proved in Coq; for every captured connection (4 suites x full/resumed x client "
                "authentication x TLCP/DTLCP, random application writes both ways) Coq derives the master secret from the pre-master secret and the hello randoms, cuts the key block, opens every "
                "protected wire record of each direction under that direction's key and sequence number, recomputes both Finished values from the SM3 transcript, and compares plaintexts, "
-               "master secrets of both session caches and per-record nonces/IVs.",
+               "master secrets of both session caches and per-record nonces/IVs."
+               " Datagram captures continue at record sequence numbers above 2^32.",
     level_note="Trusted: Coq kernel + vm_compute; the specification (Spec/SM3, SM4, Modes, PRF, RecordProt) is a hand-written reading of the standards, validated inside Coq on the GB/T 32905 and GB/T 32907 "
                "vectors and on CBC/GCM vectors produced once with gmsm. ECC suites: the pre-master secret is obtained by decrypting the captured ClientKeyExchange with the server's encryption key "
                "using gmsm (SM2 decryption trusted). ECDHE suites: the master secret is taken from the session caches (SM2 key agreement trusted) and everything downstream is checked. "
@@ -235,7 +244,8 @@ PROPS["C03"] = dict(
                "ChangeCipherSpec, retransmissions), up to the header of the last Finished; the parsing layer (reassembly, type switch, C14 decoders) never panics. "
                "Correspondence per run of bin/check: ~4,300 (quick) / ~28,000 (thorough: every byte position x 3 masks of a full and a resumed handshake per stack, every record-level edit, "
                "4 suites x full/resumed x client authentication x 2 stacks) tampered handshakes between real endpoints; the model predicts which endpoint completes (and, at the record / order "
-               "level, that the refusing endpoint refuses by itself); the property is evaluated on ConnectionState, session caches, recorded Finished values and peer certificates of both endpoints.",
+               "level, that the refusing endpoint refuses by itself); the property is evaluated on ConnectionState, session caches, recorded Finished values and peer certificates of both endpoints."
+               " Also: every ChangeCipherSpec record of a direction removed (datagram stack), with a property-level code for a completion without one.",
     level_note="Trusted: Coq kernel + vm_compute; the idealisations (SM3 collision-free, PRF(k,label,.) injective in (label, digest), an accepted verify_data was written by one of the two "
                "endpoints: the adversary holds no master secret -- authentication of the key exchange is C02/C07); the hand-written model (contents checks are parameters: the theorems hold for "
                "all of them, so nothing about X.509 / SM2 is assumed); the harness (tk.Wire / tk.VNet middle, recording session caches, puppet peer). "
@@ -274,7 +284,8 @@ PROPS["C14"] = dict(
                "canonical input re-encodes to itself; accepted framed input is strictly tiled; no decoder can index out of range) proved in Coq; the models, the "
                "independent strict walker and the canonical parsers are evaluated in Coq on what the Go marshal/unmarshal did for random well-formed fields incl. empty and "
                "maximal vectors and every extension, all short truncations, sampled (thorough: all) truncations and single-byte mutations, re-framed insertions/deletions, "
-               "arbitrary bytes, hand-made non-canonical hellos (several and duplicated supported_groups / signature_algorithms extensions in both stacks), and every handshake message captured from real handshakes of both stacks.",
+               "arbitrary bytes, hand-made non-canonical hellos (several and duplicated supported_groups / signature_algorithms extensions in both stacks), and every handshake message captured from real handshakes of both stacks."
+               " Also: renumbering (setMessageSeq) a message that already holds an encoding, mixed-case server names, status_request vectors cut or overlong.",
     level_note="Trusted: Coq kernel + vm_compute; hand-written models tied by correspondence (every case compares accept/reject, all decoded fields, and the re-marshalled bytes); "
                "the raw cache is bypassed (cleared by the hook); Go slicing up to cap() is modelled as slicing up to len() (stricter); 24-bit vectors are exercised up to ~70 kB, not 16 MB; "
                "strictness holds under the framing readHandshake guarantees, most decoders do not check the header themselves (K7, K8). "
@@ -300,7 +311,8 @@ PROPS["C19"] = dict(
                "(any datagram index, delays 30/150/450/1200 ms) and of at most three (delays 150 ms), in all 8 configurations (full / abbreviated, client authentication, both orders of simultaneous expiry), "
                "ends with both endpoints complete, ping and pong delivered, within one retransmission timeout of the schedule per fault plus the injected delays; for every script of any length and any "
                "number of steps: no application data before completion, completion only after the peer's Finished was handed over, timeouts only take schedule values.  The model is tied to the code by "
-               "exact equality of full event traces on every fault-free run, every single fault on the first six datagrams of either side (both tie orders), sampled (thorough: all) double and sampled triple faults.",
+               "exact equality of full event traces on every fault-free run, every single fault on the first six datagrams of either side (both tie orders), sampled (thorough: all) double and sampled triple faults."
+               " Flights spanning several datagrams (path MTU 500) are outside the model and judged on the outcome only (finding K16).",
     level_note="Trusted: Coq kernel + vm_compute; the hand-written model (tied by trace equality: any change in what is sent when, in record numbering, in timer handling shows up as a mismatch); "
                "harness/internal/tk/vnet.go, whose scheduling discipline (zero latency, one datagram per step, time advances only at quiescence, serialised simultaneous expiries) the model mirrors: the "
                "theorems are about runs under that discipline; real networks with latency comparable to the timeouts are outside.  Agreement of negotiated parameters is checked on the implementation's "
@@ -400,7 +412,8 @@ PROPS["C09"] = dict(
                "no handBuf growth after completion, handBuf at most 18432 bytes above its length at the entry of the running readRecordOrCCS call and at most 12 + 65536 - 1 + 18432 = 83979 bytes while the connection lives and a message is awaited, "
                "for every datagram sequence; the record reader does not recurse (constant call depth).  The parser models are evaluated in Coq on the bodies the Go parsers were called with (class of the result and what reached gmsm must agree), the machines on scripted "
                "record sequences against real endpoints at five handshake states (buffer sizes after every step must agree), and the bound predicates on the maxima observed in puppet-driven scenarios "
-               "(malformed message at every state, floods, garbage, foreign key types; both roles, both stacks).",
+               "(malformed message at every state, floods, garbage, foreign key types; both roles, both stacks)."
+               " Also: every message omitted at every state, servers under every certificate-requesting policy, fragments of one message that disagree about the total length.",
     level_note="Trusted: Coq kernel + vm_compute; hand-written models tied by correspondence; X.509 / ASN.1 parsing and gmsm are exercised, not modelled (oracle arguments of the theorems); "
                "bytes.Buffer capacity growth and the Go allocator are not modelled (the observed capacity of rawInput is checked against a fixed constant); the time-based cleanup of stale "
                "reassembly buffers is not modelled (it only removes); K12, K13, K14, K15 are repaired in the library (1e7de38, 593205a, 6b259b8, bfc7028): their bounds are theorems, the code before each fix is kept as a regression definition "
